@@ -152,6 +152,7 @@ def gen_catalogue(seed):
         cfgs.append(cfg)
     # inputs of the items template: generated single-file worlds, valid and invalid
     items_inputs = []
+    seen_names = set()
     from ..gen import Ref
     for j in range(11):
         qualified = j % 2 == 1
@@ -162,11 +163,19 @@ def gen_catalogue(seed):
         fe = w.files[w.main]
         kind = ["valid", "valid", "valid", "syntax", "dangling", "ambiguous", "valid", "boom", "matchboom",
                 "matchboom", "colons"][j]
+        if kind == "valid":
+            # a definition no other input has: the dangling input below refers to one of them
+            fe.tail_tokens = ["def", f"only{j}"]
+            seen_names.add(f"only{j}")
         if kind == "syntax":
             ents = [e for e in w.all_ents(fe) if e.kind != "inner"]
             t.pick(ents, "syntax-at").pre_tokens = ["%"]
         elif kind == "dangling" and w.refs:
-            t.pick(w.refs, "dangling-ref").text_override = "zz9"
+            # a name this input does not define but *earlier inputs do*: a table of named objects that survives from
+            # one load to the next would resolve it
+            own = {d.name for d in w.defs}
+            foreign = sorted({n for n in seen_names if n not in own})
+            t.pick(w.refs, "dangling-ref").text_override = t.pick(foreign, "dangling-name") if foreign else "zz9"
         elif kind == "ambiguous" and w.refs:
             r = t.pick(w.refs, "amb-ref")
             fe.tail_tokens = ["def", r.target.name]
